@@ -6,7 +6,7 @@ Import RecordSetNotations.
 From EV Require Import Base.Str Model.Value Model.Adapt Model.Keyspace Model.Reply Model.Prog.
 From EV Require Import Model.CmdList Model.CmdGeneric Model.CmdString Model.Dispatch Model.TableTypes.
 From EV Require Import Model.HashVal Model.CmdHash Model.CmdSet Model.ZSetOps Model.ZSetMulti Model.CmdZSet.
-From EV Require Import Model.Raft Proofs.KeyspaceLemmas Proofs.ProgLemmas Proofs.RaftLemmas Proofs.RaftDet Proofs.RaftClasses.
+From EV Require Import Model.AbsForm Model.Raft Proofs.KeyspaceLemmas Proofs.ProgLemmas Proofs.RaftLemmas Proofs.RaftDet Proofs.RaftClasses.
 From EV Require Import Proofs.HandlerClasses Proofs.DispatchLemmas Proofs.TableObligations Gen.CmdTable.
 Local Open Scope Z_scope.
 
@@ -75,9 +75,9 @@ Proof.
   apply existsb_exists. exists w. split; [done|apply String.eqb_refl].
 Qed.
 
-Theorem entry_det_b_sound T e : entry_det_b T e = true -> replica_det T e.
+Lemma entry_det_b_entry_det T e : entry_det_b T e = true -> entry_det T e.
 Proof.
-  intros Hb. apply entry_det_sound. destruct e as [d argv|d k|]; [|done..].
+  intros Hb. destruct e as [d argv|d k|]; [|done..].
   destruct argv as [|cmd rest]; [done|]. simpl in Hb. cbv zeta in Hb. unfold entry_det.
   destruct (String.eqb (lower cmd) "set") eqn:Eset.
   { apply String.eqb_eq in Eset. rewrite Eset. split; [done|].
@@ -101,6 +101,9 @@ Proof.
   - intros pk. apply handler_for_pick; (eapply (smem_false_neq _ _ nondet_words); [exact Hb|unfold nondet_words; simpl; auto 10]).
   - intros h Hh. by eapply tf_every_handler.
 Qed.
+
+Theorem entry_det_b_sound T e : entry_det_b T e = true -> replica_det T e.
+Proof. intros Hb. apply entry_det_sound. by apply entry_det_b_entry_det. Qed.
 
 (** * The cluster branch of handleCommand *)
 Theorem follower_never_applies sync pk n d cmd rest :
@@ -126,11 +129,13 @@ Proof.
   destruct (handler_for pk (lower cmd)); [|done]. by destruct (run_cl _ _ _).
 Qed.
 
-(** The leader: the entry proposed carries the client's database and argument vector; the state the
+(** The leader: the entry proposed carries the client's database and the absolute form of the argument
+    vector at the leader's clock ([Model/AbsForm.v]; the argument vector itself unless it holds a relative
+    expiry: [absolute_form_other] in Proofs/AbsFormProofs.v); the state the
     leader answers reads from after the acknowledgement is the state after applying that entry. *)
 Theorem leader_proposes sync pk n d cmd rest h :
   n_leader n = true -> sync (lower cmd) = true -> handler_for pk (lower cmd) = Some h ->
-  handle_command sync pk n d (cmd :: rest) = HcPropose (ReqCommand d (cmd :: rest)).
+  handle_command sync pk n d (cmd :: rest) = HcPropose (ReqCommand d (absolute_form (st_now (n_st n)) (cmd :: rest))).
 Proof. intros Hl Hs Hh. unfold handle_command. by rewrite Hh, Hs, Hl. Qed.
 
 Theorem read_after_ack pk n e :
@@ -142,7 +147,7 @@ Proof. unfold leader_write. by destruct (fsm_apply pk (n_st n) e). Qed.
 Theorem forwarded_keeps_database sync pk f l d cmd rest :
   n_leader f = false -> n_forward f = true -> n_leader l = true ->
   handle_command sync pk f d (cmd :: rest) = HcForward d (cmd :: rest) ->
-  notify_mutate l d (cmd :: rest) = Some (ReqCommand d (cmd :: rest)).
+  notify_mutate l d (cmd :: rest) = Some (ReqCommand d (absolute_form (st_now (n_st l)) (cmd :: rest))).
 Proof. intros _ _ Hl _. unfold notify_mutate. by rewrite Hl. Qed.
 
 (** * Database placement: an entry changes the database named in the request and no other *)
